@@ -5,7 +5,7 @@
    (harness/c02/translate.py).  Executable definitions only. *)
 From Coq Require Import List NArith ZArith Bool.
 Import ListNotations.
-Require Import Verif.Lib.Wire Verif.Lib.Text Verif.Lib.Utf8.
+Require Import Verif.Lib.Wire Verif.Lib.Text Verif.Lib.Utf8 Verif.Lib.Percent.
 
 (* ------------------------------------------------------------------ trees *)
 (* A location-aware resource tree.  [None] = a resource without
@@ -82,3 +82,43 @@ Definition latin1_encode_r (t : text) : result (list N) :=
   if forallb (fun c => N.ltb c 256) t then Ok t else Exc UnicodeEncodeError.
 Definition utf8_decode_r (b : list N) : result text :=
   match Utf8.decode b with Some cs => Ok cs | None => Exc UnicodeDecodeError end.
+
+(* ------------------------------------------------------------ the request as the traverser sees it *)
+(* a match-dictionary value: the str of a {name} placeholder or the tuple of a *stararg *)
+Inductive mval := MStr (t : text) | MTuple (l : list text).
+Record matchdict := mkMd { md_traverse : option mval; md_subpath : option mval }.
+Record request := mkReq {
+  q_path_info : option text;        (* environ['PATH_INFO'] (WSGI latin-1 text); None = key absent *)
+  q_matchdict : option matchdict;   (* request.matchdict *)
+  q_vroot : option text }.          (* environ['HTTP_X_VHM_ROOT'] *)
+
+(* truth value of a match-dictionary value ('' and () are falsy) *)
+Definition mval_falsy (v : mval) : bool :=
+  match v with MStr [] => true | MTuple [] => true | _ => false end.
+
+(* matchdict.get(key, default) for the keys 'traverse' / 'subpath' *)
+Definition md_get (field : matchdict -> option mval) (md : matchdict) (dflt : mval) : mval :=
+  match field md with Some v => v | None => dflt end.
+
+(* webob BaseRequest.path_info on a present PATH_INFO: the WSGI (latin-1) text read as UTF-8
+   (absent key = KeyError is the [None] of q_path_info) *)
+Definition webob_path_info (raw : text) : result text := rbind (latin1_encode_r raw) utf8_decode_r.
+
+(* ------------------------------------------------------------ parents (location.lineage, find_root) *)
+(* a resource is identified by its position; its __parent__ is the resource at the position without the
+   last index, and None for the root *)
+Definition parent_is_none (x : rnode) : bool := is_nil (fst x).
+
+(* lineage(x): x, its parent, ..., the root of [tree] *)
+Definition lineage_of (tree : res) (x : rnode) : list rnode :=
+  x :: flat_map (fun k => match node_at tree (firstn k (fst x)) with
+                          | Some n => [(firstn k (fst x), n)]
+                          | None => []
+                          end) (rev (seq 0 (length (fst x)))).
+
+(* ------------------------------------------------------------ traversal_path *)
+(* str.encode('ascii') (UnicodeEncodeError above U+007F) *)
+Definition ascii_encode_r (t : text) : result (list N) :=
+  if forallb (fun c => N.ltb c 128) t then Ok t else Exc UnicodeEncodeError.
+(* unquote_bytes_to_wsgi(b) = urllib.parse.unquote_to_bytes(b).decode('latin-1'): code point = byte *)
+Definition unquote_to_wsgi (b : list N) : text := Percent.unquote b.
